@@ -9,7 +9,7 @@ use crate::Tier;
 use verif_rt::core::ExecResult;
 use verif_rt::explore::{Finding, Scenario};
 
-pub const ROLES: [&str; 11] = [
+pub const ROLES: [&str; 14] = [
     "dispatch2",
     "sub+unsub",
     "selector+unsub",
@@ -21,6 +21,9 @@ pub const ROLES: [&str; 11] = [
     "iter-drop",
     "stop",
     "thunk",
+    "close",
+    "addreducer+dispatch",
+    "chanlatest+unsub",
 ];
 
 /// ops of role `role` placed in thread slot `slot` (ids are made unique per slot)
@@ -38,6 +41,9 @@ pub fn role_ops(role: usize, slot: u32) -> Vec<Op> {
         8 => vec![Op::Iter { id: b + 6, take: Some(0), extra: 0, signal: false }],
         9 => vec![Op::Stop],
         10 => vec![Op::ClientThunk(500 + slot)],
+        11 => vec![Op::Close],
+        12 => vec![Op::AddReducer(1 + slot), Op::Dispatch(Act::new(100 * (slot + 1) + 50))],
+        13 => vec![Op::Subscribed { id: b + 7, cap: 1, pol: Pol::Latest, gated: false, reads: true }, Op::Unsub(b + 7)],
         _ => unreachable!(),
     }
 }
@@ -91,13 +97,13 @@ pub fn scenarios(tier: Tier) -> Vec<Scenario> {
             for ms in multisets(ROLES.len(), 3) {
                 // roles that bring their own threads (channeled delivery, pool jobs) or can end
                 // in a known hang make the tree wide: two or more of them -> bound 1
-                let heavy = ms.iter().filter(|r| matches!(**r, 3 | 4 | 6 | 7 | 8 | 10)).count();
+                let heavy = ms.iter().filter(|r| matches!(**r, 3 | 4 | 6 | 7 | 8 | 10 | 13)).count();
                 add(&ms, 1, if heavy >= 2 { 1 } else { 2 });
             }
             for ms in multisets(ROLES.len(), 4) {
                 // four clients: non-preemptive schedules only (every order in which blocked or
                 // finished tasks hand over), and only programs that dispatch
-                if ms.contains(&0) {
+                if ms.contains(&0) && !ms.iter().any(|r| *r >= 11) {
                     add(&ms, 1, 0);
                 }
             }
